@@ -10,11 +10,18 @@ EXPLANATION = (
     "queue-spinlock owner; a writer's release by nsync_mu_unlock (fast paths and the uncontended path of the slow path) always clears "
     "it, because that critical section may have made conditions true; nsync_mu_unlock_without_wakeup may leave it set; MU_CONDITION and "
     "MU_WAITING change only under the spinlock, and a conditional waiter sets MU_CONDITION in the very step that takes the spinlock to "
-    "enqueue itself (contract of nsync_spin_test_and_set_ as called from nsync_mu_wait_with_deadline).")
+    "enqueue itself (contract of nsync_spin_test_and_set_ as called from nsync_mu_wait_with_deadline). (3) Grouping of 'same condition' "
+    "neighbours, which licenses skipping waiters after one false evaluation: nsync_maybe_merge_conditions_ groups two waiters only if they "
+    "have the same non-NULL function and identical arguments or condition_arg_eq, applied to their two arguments, says they are equivalent "
+    "(loop-free harness over every equality pattern and every answer of condition_arg_eq: complete for one call, real mu.c + dll.c). "
+    "(4) BOUNDED: after every sequence of queue operations performed through the real nsync_maybe_merge_conditions_, "
+    "nsync_remove_from_mu_queue_, nsync_dll_* in the way their call sites do (enqueue last / first, timeout removal, scan pick-up, wake, "
+    "re-join, put back), everything skip_past_same_condition would jump over is equivalent to the waiter whose condition was evaluated, no "
+    "record is lost from its queue, rings stay well linked and a record that left the queue is in no group.")
 LEVEL_TEXT = ("'returns once its condition has been made true' is liveness and is not decided by contracts; the evaluation-under-lock clause and "
               "the hint-bit clauses that make skipping a scan legal are proved (unbounded, all interference), hence level other")
 ASSUMPTIONS = ["conditions are pure functions of state protected by the mutex (client precondition)"]
-NOT_DECIDED = ["that the woken thread eventually runs; scan completeness of nsync_mu_unlock_slow_ over the same_condition rings (queue-level groups pending)"]
+NOT_DECIDED = ["that the woken thread eventually runs", "same_condition ring invariants beyond the stated bound (an unbounded proof needs inductive list predicates that CBMC contracts cannot state)", "the enqueue / re-join steps of the bounded queue scenarios are written in the harness as at the call sites in mu_wait.c and mu.c, not executed through those callers"]
 TRUSTED = []
 PARALLEL = 14
 
